@@ -122,3 +122,56 @@ func clauseExprFields(info *types.Info, e ast.Expr, pos map[string]int) map[stri
 	}
 	return nil
 }
+
+// structRebuildCompleteness: every composite literal of the named struct type in
+// the listed functions mentions every field of the struct (an explicit nil counts).
+func structRebuildCompleteness(c *core.Ctx, rule, typeName string, funcs []string) {
+	i := strings.Index(typeName, ".")
+	named := c.Prog.Named(typeName[:i], typeName[i+1:])
+	if named == nil {
+		c.Unres(rule, typeName, 0, "anchor-unresolved: type %s", typeName)
+		return
+	}
+	st, _ := named.Underlying().(*types.Struct)
+	for _, fn := range funcs {
+		j := strings.Index(fn, ".")
+		f := c.MustFunc(rule, fn[:j], fn[j+1:])
+		if f == nil {
+			continue
+		}
+		info := f.Pkg.TypesInfo
+		n := 0
+		ast.Inspect(f.Decl.Body, func(m ast.Node) bool {
+			cl, ok := m.(*ast.CompositeLit)
+			if !ok || core.TypeName(info.TypeOf(cl)) != typeName {
+				return true
+			}
+			n++
+			set := map[string]bool{}
+			positional := false
+			for _, el := range cl.Elts {
+				if kv, ok := el.(*ast.KeyValueExpr); ok {
+					set[kv.Key.(*ast.Ident).Name] = true
+				} else {
+					positional = true
+				}
+			}
+			var missing []string
+			for k := 0; k < st.NumFields() && !positional; k++ {
+				if !set[st.Field(k).Name()] {
+					missing = append(missing, st.Field(k).Name())
+				}
+			}
+			cons := fmt.Sprintf("%s:%s#%d", f.Name, typeName, n)
+			if len(missing) == 0 {
+				c.OK(rule, cons, cl.Pos(), "the rebuilt %s carries all of its fields", typeName)
+			} else {
+				c.Bad(rule, cons, cl.Pos(), "a %s is rebuilt here without %v: the copy silently loses that part of the literal", typeName, missing)
+			}
+			return true
+		})
+		if n == 0 {
+			c.OK(rule, f.Name+":"+typeName+":none", f.Decl.Pos(), "no %s is constructed in this function", typeName)
+		}
+	}
+}
